@@ -219,13 +219,31 @@ def run_impl(case):
         except Exception as ex:
             excs.append(exn_kind(ex))
     log = [[_undst(d), h, r] for d, h, r in m.ls.log]
-    return {"excs": excs,
+    before = {"txgs": [[bytes(g).hex(), _undst(d)] for g, d in m.txgs], "txbs": [bytes(m.txbs[0]).hex(), _undst(m.txbs[1])]}
+    # drain phase (after everything that is compared with the model has been recorded): the transport stops
+    # pushing back and the Memoer is serviced further through the entry point the case uses (the ...Once
+    # method if the case uses it at all, else the greedy one); one call per pending gram and two to spare
+    entry = "once" if any(op[0] == "once" for op in case["ops"]) else "svc"
+    pend = len(before["txgs"]) + (1 if before["txbs"][1] is not None else 0)
+    m.ls.script, m.ls.log = [], []
+    m.opened = True
+    drain_exc = None
+    try:
+        for _ in range(pend + 2):
+            m.serviceTxGramsOnce() if entry == "once" else m.serviceTxGrams()
+    except Exception as ex:
+        drain_exc = exn_kind(ex)
+    drain = {"entry": entry, "exc": drain_exc,
+             "offered": [[_undst(d), h] for d, h, r in m.ls.log],
+             "txgs_left": [[bytes(g).hex(), _undst(d)] for g, d in m.txgs],
+             "txbs_left": [bytes(m.txbs[0]).hex(), _undst(m.txbs[1])]}
+    return {"excs": excs, "drain": drain,
             "objs_changed": sorted(k for k, (o, orig) in objs.items() if bytes(o) != orig),
             "log": log,
             "script_left_before": left,
             "opened": bool(m.opened),
-            "txgs": [[bytes(g).hex(), _undst(d)] for g, d in m.txgs],
-            "txbs": [bytes(m.txbs[0]).hex(), _undst(m.txbs[1])]}
+            "txgs": before["txgs"],
+            "txbs": before["txbs"]}
 
 
 def _accepted(obs):
@@ -244,12 +262,28 @@ def _in_scope(case):
     return not any(x[0] == "err" and x[1] in OTHER for x in case["script"])
 
 
+def _eventually_delivered(obs):
+    """once the transport accepts again, further service calls through the case's entry point deliver everything
+    that was pending, in order, in full, and leave txgs empty and txbs = (b'', None)"""
+    d = obs["drain"]
+    pending = ([[obs["txbs"][1], obs["txbs"][0]]] if obs["txbs"][1] is not None else []) + [[dst, g] for g, dst in obs["txgs"]]
+    if d["exc"]:
+        return f"servicing with an accepting transport raised {d['exc']}"
+    if d["txgs_left"] or d["txbs_left"] != ["", None]:
+        return (f"transport accepts everything, yet after {len(pending) + 2} further {d['entry']} service calls "
+                f"txgs={d['txgs_left']} txbs={d['txbs_left']} are still unsent")
+    if d["offered"] != pending:
+        return f"pending {pending} but the accepting transport was offered {d['offered']}"
+    return None
+
+
 def oracle(case, obs):
     """Every queued gram is offered to the transport in full, in queue order, each byte accepted exactly once;
     a gram is abandoned only after an unreachable error; nothing raises; once the transport accepts again a
     final serviceTxGrams drains everything.  (Fault sequences with unexpected errnos are outside the property.)"""
-    if not _in_scope(case):
-        return None
+    w = _eventually_delivered(obs)
+    if w or not _in_scope(case):
+        return w
     if any(obs["excs"]):
         return f"exception escaped although the transport only blocked or reported unreachable: {obs['excs']}"
     if obs.get("objs_changed"):
